@@ -907,6 +907,10 @@ def rule_K4(ctx, rule: str = "K4") -> None:
         if isinstance(n, ast.Assign) and len(n.targets) == 1 and isinstance(n.targets[0], ast.Name) and n.targets[0].id == "cased_name":
             key_deps = {x.id for x in ast.walk(n.value) if isinstance(x, ast.Name)} | {ast.unparse(x) for x in ast.walk(n.value) if isinstance(x, ast.Attribute)}
     if not key_deps:
+        # the key may be applied when the collected values are re-keyed in the return value: {E(f): v for f, v in output.items()}
+        for r in [r.value for r in ast.walk(fn) if isinstance(r, ast.Return) and isinstance(r.value, ast.DictComp)]:
+            key_deps |= {x.id for x in ast.walk(r.key) if isinstance(x, ast.Name)} | {ast.unparse(x) for x in ast.walk(r.key) if isinstance(x, ast.Attribute)}
+    if not key_deps:
         ctx.inconclusive(rule, "to_dict:json-key-source", "key expression not recognised", mod.loc(fn))
         return
     uses_meta_name = any(d.startswith(meta + ".") and "name" in d for d in key_deps)
